@@ -26,6 +26,11 @@ deriving Repr, DecidableEq
 
 abbrev Shape := List Nat
 
+/-- Python `a | b` for `b ≥ 0` (two's complement for negative `a`: `a | b = ~(~a & ~b)`, `~a = −a − 1`). -/
+def pyOr (a b : Int) : Int :=
+  if 0 ≤ a then ((a.toNat ||| b.toNat : Nat) : Int)
+  else -1 - ((((-a - 1).toNat - ((-a - 1).toNat &&& b.toNat) : Nat)) : Int)
+
 /-! ## per-axis transfer functions -/
 
 /-- `Conv{2,3}d`: `(n + 2p − d(k−1) − 1)/s + 1`, defined when the padded input covers the dilated kernel. -/
@@ -78,6 +83,12 @@ structure State where
   stack : List Shape := []
   trace : List Shape := []
 deriving Repr, DecidableEq
+
+instance : DecidableEq (Except Err State)
+  | .ok a, .ok b => if h : a = b then isTrue (by rw [h]) else isFalse (by intro e; cases e; exact h rfl)
+  | .error a, .error b => if h : a = b then isTrue (by rw [h]) else isFalse (by intro e; cases e; exact h rfl)
+  | .ok _, .error _ => isFalse (by intro e; cases e)
+  | .error _, .ok _ => isFalse (by intro e; cases e)
 
 inductive Op where
   | conv (k s p d : Nat)
@@ -249,23 +260,24 @@ deriving Repr, DecidableEq
 
 def DidnP.std : DidnP := {}
 
-/-- `DUB.forward`; `e = true` emits after every child module (stand-alone DUB with hooks on its children). -/
-def dub (P : DidnP) (e : Bool) : List Op :=
-  let em : List Op := if e then [.emit] else []
-  let c : List Op := [.conv P.ck 1 P.cp 1]
-  [.push, .padEven] ++ c ++ c ++ em ++                 -- x1 = pad(x); x1 + conv1_1(x1)
-  [.push, .conv P.dk P.ds P.dp 1] ++ em ++             -- x2 = down1(x1)
-  c ++ em ++                                           -- x2 + conv2_1(x2)
-  [.push, .conv P.dk P.ds P.dp 1] ++ em ++             -- out = down2(x2)
-  c ++ em ++                                           -- out + conv3_1(out)
-  [.conv 1 1 0 1, .scale P.r] ++ em ++                 -- up1
-  [.popCropSame, .conv 1 1 0 1] ++ em ++               -- cat([x2, crop(out)]); conv_agg_1
-  c ++ em ++                                           -- conv2_2
-  [.conv 1 1 0 1, .scale P.r] ++ em ++                 -- up2
-  [.popCropSame, .conv 1 1 0 1] ++ em ++               -- cat([x1, crop(out)]); conv_agg_2
-  c ++ c ++ em ++                                      -- conv1_2
-  c ++ em ++                                           -- conv_out
-  [.popCropSame]                                       -- x + crop(conv_out(out), x.shape)
+/-- `DUB.forward`; `em` is executed after every child module (`[.emit]` for the stand-alone DUB with hooks on its
+children, `[]` inside DIDN where only the DUB itself is hooked). -/
+def dubWith (P : DidnP) (em : List Op) : List Op :=
+  [.push, .padEven, .conv P.ck 1 P.cp 1, .conv P.ck 1 P.cp 1] ++ em ++   -- x1 = pad(x); x1 + conv1_1(x1)
+  [.push, .conv P.dk P.ds P.dp 1] ++ em ++                               -- x2 = down1(x1)
+  [.conv P.ck 1 P.cp 1] ++ em ++                                         -- x2 + conv2_1(x2)
+  [.push, .conv P.dk P.ds P.dp 1] ++ em ++                               -- out = down2(x2)
+  [.conv P.ck 1 P.cp 1] ++ em ++                                         -- out + conv3_1(out)
+  [.conv 1 1 0 1, .scale P.r] ++ em ++                                   -- up1
+  [.popCropSame, .conv 1 1 0 1] ++ em ++                                 -- cat([x2, crop(out)]); conv_agg_1
+  [.conv P.ck 1 P.cp 1] ++ em ++                                         -- conv2_2
+  [.conv 1 1 0 1, .scale P.r] ++ em ++                                   -- up2
+  [.popCropSame, .conv 1 1 0 1] ++ em ++                                 -- cat([x1, crop(out)]); conv_agg_2
+  [.conv P.ck 1 P.cp 1, .conv P.ck 1 P.cp 1] ++ em ++                    -- conv1_2
+  [.conv P.ck 1 P.cp 1] ++ em ++                                         -- conv_out
+  [.popCropSame]                                                         -- x + crop(conv_out(out), x.shape)
+
+def dub (P : DidnP) (e : Bool) : List Op := dubWith P (if e then [.emit] else [])
 
 def dubs (P : DidnP) : Nat → List Op
   | 0 => []
@@ -343,6 +355,17 @@ def dropAxis (d : Nat) (s : Shape) : Shape := s.eraseIdx d
 def insertAxis (d k : Nat) (s : Shape) : Shape := s.take d ++ [k] ++ s.drop d
 /-- `torch.cat(k tensors, dim)` of equal shapes -/
 def catAxis (d k : Nat) (s : Shape) : Shape := s.set d (k * s.getD d 0)
+
+/-- `x.reshape(b, groups, -1)` of a `(b, c, *spatial)` tensor (group normalisation of the Norm-U-Nets / NormConv2dGRU):
+the `c · numel` elements of one sample must split into `groups` equal parts. -/
+def groupReshapeOk (groups c : Nat) (sp : Shape) : Bool := groups != 0 && (c * numel sp) % groups == 0
+
+/-- NumPy/torch broadcasting of two shapes (right aligned); `none` = `RuntimeError` -/
+def broadcast (a b : Shape) : Option Shape :=
+  let n := max a.length b.length
+  let a' := List.replicate (n - a.length) 1 ++ a
+  let b' := List.replicate (n - b.length) 1 ++ b
+  (List.zip a' b').mapM fun (x, y) => if x = y then some x else if x = 1 then some y else if y = 1 then some x else none
 
 /-- one call of a denoiser inside an unrolled network, as seen by a forward hook: input and output shapes -/
 structure Call where
